@@ -391,6 +391,10 @@ Section Envelope.
   Definition direct_fields (sels : list selection) : list (name * name) :=
     flat_map (fun s => match s with SField a f _ => [(sel_key a f, f)] | _ => [] end) sels.
 
+  Definition keys_mergeable (kfs : list (name * name)) : bool :=
+    all_pairs (fun p q => negb (bytes_eqb (lower_bytes (fst p)) (lower_bytes (fst q))) ||
+                          (bytes_eqb (fst p) (fst q) && bytes_eqb (snd p) (snd q))) kfs.
+
   Definition has_fragment (sels : list selection) : bool :=
     existsb (fun s => match s with SField _ _ _ => false | _ => true end) sels.
 
@@ -401,8 +405,10 @@ Section Envelope.
     (* response keys begin with a letter (or are the unaliased __typename) ... *)
     forallb (fun kf => begins_with_letter (fst kf) || (is_typename (fst kf) && is_typename (snd kf)))
             (direct_fields sels) &&
-    (* ... and are distinct ignoring letter case *)
-    nodupb (map (fun kf => lower_bytes (fst kf)) (direct_fields sels)) &&
+    (* ... and are distinct ignoring letter case: two direct selections whose keys are equal
+       ignoring case have the same key and select the same field (a response key may be selected
+       more than once; the selections are merged) *)
+    keys_mergeable (direct_fields sels) &&
     (* __typename is selected wherever fragments are applied to an interface or union *)
     (negb (has_fragment sels) || is_object_type S t ||
      match first_typename sels with Some _ => true | None => false end) &&
@@ -425,8 +431,9 @@ Section Envelope.
                       end) sels.
 
   (** [P] holds of every selection set that becomes one generated struct: the selection set
-      itself, the sub-selections of its composite fields, the selections of all its inline
-      fragments on one type taken together, and the bodies of the fragments it spreads *)
+      itself, the sub-selections of all selections of one response key taken together (composite
+      fields), the selections of all its inline fragments on one type taken together, and the
+      bodies of the fragments it spreads *)
   Fixpoint all_structs (P : name -> list selection -> bool) (fuel : nat) (t : name) (sels : list selection)
     {struct fuel} : bool :=
     match fuel with
@@ -434,10 +441,11 @@ Section Envelope.
     | Datatypes.S f =>
         P t sels &&
         forallb (fun s => match s with
-                          | SField _ fn sub =>
+                          | SField a fn _ =>
                               if is_typename fn then true
                               else match field_type S t fn with
-                                   | Some ft => if composite S (unwrap ft) then all_structs P f (unwrap ft) sub else true
+                                   | Some ft => if composite S (unwrap ft)
+                                                then all_structs P f (unwrap ft) (merged_field (sel_key a fn) sels) else true
                                    | None => true
                                    end
                           | SInline c _ =>
@@ -473,7 +481,7 @@ Section Envelope.
     fold_right (fun x acc => if mem x acc then acc else x :: acc) [] l.
 
   Definition member_keys (t : name) (sels : list selection) : list name :=
-    map fst (direct_fields sels) ++
+    dedup (map fst (direct_fields sels)) ++
     dedup (flat_map (fun s => match s with SInline c _ => [inline_cond t c] | _ => [] end) sels) ++
     dedup (flat_map (fun s => match s with SSpread n _ _ => [n] | _ => [] end) sels).
 
